@@ -176,14 +176,20 @@ def check_fault(case, f, m, out, log, idx):
         node = m.by_uid[doc[f['line']]['uid']]
         errs, dontcare, syn = R.segment_errors(node, f['new_vals'], case['charset'], entry['icvn'], m.codes)
         if kind == 'syntax_note':
-            hit = [e for e in here if e.level == 'ele' and e.code == want and e.ele_pos in f['note'][1]]
+            # the error stands at the element that is missing (for an exclusion: at the second one that is present)
+            npos = list(f['note'][1])
+            pres = [p_ for p_ in npos if p_ <= len(f['new_vals']) and R.present(f['new_vals'][p_ - 1])]
+            miss = [p_ for p_ in npos if p_ not in pres]
+            exp_pos = (pres[1] if len(pres) > 1 else npos[0]) if f['note'][0] == 'E' else (miss[0] if miss else npos[0])
+            hit = [e for e in here if e.level == 'ele' and e.code == want and e.ele_pos == exp_pos]
             anypos = [e for e in here if e.level == 'ele' and e.code == want]
             if not anypos:
                 out.violate('missing', 'missing-error|' + sigbase, '%s: no element error %s reported at the segment (got %r)' % (tag, want, here), fault=f)
                 return
             if not hit:
                 out.violate('position', 'wrong-position|' + sigbase,
-                            '%s: error %s reported at element %s, the note mentions %s' % (tag, want, [e.ele_pos for e in anypos], f['note'][1]), fault=f)
+                            '%s: error %s reported at element %s; by the note %s%s the element at fault is %d' % (
+                                tag, want, [e.ele_pos for e in anypos], f['note'][0], f['note'][1], exp_pos), fault=f)
                 return
         else:
             e_pos, c_pos = f['ele'], f['comp']
